@@ -467,6 +467,33 @@ def run_wait_stream(chk, binary, tier):
     chk.sample(dict(stream="waitutil-realtime", case=cases[0], impl=impl[0]), limit=12)
 
 
+# ------------------------------------------------------------------ callbacks that leave Close abnormally
+def run_abnormal_stream(chk, binary):
+    """One Close whose callback ends by runtime.Goexit() (t.Fatal inside a callback), panic(nil) with
+    GODEBUG=panicnil=1 (recover() returns nil), an ordinary panic or an error; then the property's own words:
+    the object is closed, every channel C() returned is closed, WaitUtil is true, a second Close runs no callback.
+    Monitor only, nothing depends on timing. (Added after the seeded change C16-store-after-callback-goexit.)"""
+    cases = ["c16x mode=%s init=%d" % (mode, ini) for mode in ("goexit", "panicnil", "panic", "error") for ini in (0, 1)]
+    try:
+        impl = common.run_impl(binary, cases, timeout=300)
+    except common.ImplCrash as e:
+        chk.infra_errors.append("abnormal-callback stream crashed: " + str(e)[-800:])
+        return
+    for c, i in zip(cases, impl):
+        chk.count_case("abnormal-callback-exit", c, True)
+        m = dict(t.split("=", 1) for t in i.split() if "=" in t)
+        if not i.startswith("closed="):
+            chk.monitor_fail("abnormal-callback-hang", c, i, "a call did not return after a callback that left Close abnormally: " + i[:200])
+        elif m["closed"] != "true" or m["after"] != "true" or m["before"] not in ("-", "true") or m["wait"] != "true":
+            chk.monitor_fail("abnormal-callback-not-closed", c, i,
+                             "after the only Close call (callback ended by %s) was over: IsClosed()=%s, channel returned by C() before closed=%s, "
+                             "channel returned afterwards closed=%s, WaitUtil=%s: the object must be closed" % (
+                                 c.split()[1][5:], m["closed"], m["before"], m["after"], m["wait"]))
+        elif m["cb1"] != "1" or m["cb2"] != "0":
+            chk.monitor_fail("abnormal-callback-second-callback", c, i,
+                             "callbacks executed: first Close %s, second Close %s (at most one callback, that of the call that performs the close)" % (m["cb1"], m["cb2"]))
+
+
 # ------------------------------------------------------------------ WaitUtil on the virtual clock
 def gen_wait_ft(rng, tier):
     """faketime scenarios: the close happens delta ns before / after / exactly at the timeout."""
@@ -687,6 +714,7 @@ def run(chk):
         except Exception as ex:
             chk.infra_errors.append("vm_compute cross-check failed: %r" % (ex,))
         run_wait_stream(chk, binary, chk.tier)
+        run_abnormal_stream(chk, binary)
         run_wait_ft_stream(chk, chk.tier)
         chk.cov["step_observation_histogram_sampled"] = dict(sorted(EVHIST.items()))
     chk.finish(search=search)
